@@ -184,8 +184,20 @@ def i_int(*a, **k):
         if core.CTX.branch(n >= 0):        # str.to_int is -1 for non-numerals
             return SymInt(n)
         raise ValueError("invalid literal for int() with base 10: <sym>")
+    if isinstance(x, (SymStr, SymChar)) and len(a) == 1 and not k:
+        cs = SymStr([x]).codes() if isinstance(x, SymChar) else x.codes()
+        if not cs:
+            raise ValueError("invalid literal for int() with base 10: ''")
+        C = core.CTX
+        if C.branch(z3.And([z3.And(toint(c) >= 48, toint(c) <= 57) for c in cs])):
+            v = 0
+            for c in cs:
+                v = v * 10 + (c - 48)
+            return v
+        # signs, blanks, underscores and non-ASCII digits make other strings valid numerals as well: only the plain case is modelled
+        raise Unsupported("int() of a string that is not all ASCII digits")
     if isinstance(x, (SymStr, SymChar)):
-        raise Unsupported("int(SymStr)")
+        raise Unsupported("int(SymStr, base)")
     return NotImplemented
 
 
@@ -371,9 +383,24 @@ def i_unhexlify(x):
 _STRUCT_BE = {">I": 4, ">H": 2, ">B": 1, "B": 1, ">Q": 8, "!I": 4, "!H": 2}
 
 
+@intrinsic(divmod)
+def i_divmod(a, b):
+    if _anysym((a, b)):
+        return (a // b, a % b)
+    return NotImplemented
+
+
 @intrinsic(struct.pack)
 def i_pack(fmt, *a):
     if _anysym(a):
+        if len(a) > 1 and len(fmt) == len(a) + 1 and fmt[0] in "><!" and all((fmt[0] + f) in _STRUCT_BE for f in fmt[1:]):
+            out = SymSeq([], "bytes")
+            for f, x in zip(fmt[1:], a):
+                r = i_pack(fmt[0] + f, x)
+                if r is NotImplemented:
+                    r = struct.pack(fmt[0] + f, x)
+                out = out + r
+            return out
         if fmt in _STRUCT_BE and len(a) == 1:
             n = a[0]
             w = _STRUCT_BE[fmt]
